@@ -15,6 +15,7 @@ GhostInit ==
      visAt |-> EmptyFn,                     \* tick |-> [c |-> set of entities visible to c]
      lastSet |-> [c \in Client |-> EmptyFn],\* most recent set_visibility argument per live entity
      mapsSent |-> [c \in Client |-> {}],    \* [e, p, tick] of every mapping put on the wire
+     onceSent |-> [c \in Client |-> {}],    \* [e, k, tick, val] of every once-component put on the wire in full
      sentAtRest |-> 0]                      \* replication messages sent by the most recent server frame
 
 WorldValues(srv) == [e \in ReplEnts(srv) |-> [k \in DOMAIN srv.world[e].comps |-> srv.world[e].comps[k].val]]
@@ -29,9 +30,13 @@ GhostSnap(g, st) ==
 
 \* mappings carried by the update messages appended to the channels between two states
 GhostMaps(g, before, after) ==
-    [g EXCEPT !.mapsSent = [c \in Client |->
-        @[c] \cup UNION {{[e |-> mp[1], p |-> mp[2], tick |-> after.net[c].upd[i].tick] : mp \in after.net[c].upd[i].maps}
-                         : i \in (Len(before.net[c].upd) + 1)..Len(after.net[c].upd)}]]
+    LET new(c) == {after.net[c].upd[i] : i \in (Len(before.net[c].upd) + 1)..Len(after.net[c].upd)}
+    IN [g EXCEPT !.mapsSent = [c \in Client |->
+                    @[c] \cup UNION {{[e |-> mp[1], p |-> mp[2], tick |-> m.tick] : mp \in m.maps} : m \in new(c)}],
+                 !.onceSent = [c \in Client |->
+                    @[c] \cup UNION {UNION {{[e |-> e, k |-> k, tick |-> m.tick, val |-> m.chg[e][k]]
+                                             : k \in {x \in DOMAIN m.chg[e] : Rate(x) = "once"}}
+                                            : e \in DOMAIN m.chg} : m \in new(c)}]]
 
 GhostSetVis(g, c, e, v) == [g EXCEPT !.lastSet[c] = With(@, e, v)]
 
@@ -68,7 +73,15 @@ C02_Entity(st, g, c, e) ==
                \A k \in DOMAIN View(st, c)[e] \cap DOMAIN g.snap[h][e] :
                    Rate(k) = "every" => View(st, c)[e][k] = g.snap[h][e][k]
 
-C02(st, g) == \A c \in Client : Active(st, c) => \A e \in Held(st, c) : C02_Entity(st, g, c, e)
+\* a component replicated once holds the value of the most recent full send the client has applied
+C02_Once(st, g, c, e) ==
+    \A k \in {x \in DOMAIN View(st, c)[e] : Rate(x) = "once"} :
+        LET cands == {x \in g.onceSent[c] : x.e = e /\ x.k = k /\ x.tick <= st.cli[c].updTick}
+        IN /\ cands # {}
+           /\ View(st, c)[e][k] = (CHOOSE x \in cands : \A y \in cands : y.tick <= x.tick).val
+
+C02(st, g) == \A c \in Client : Active(st, c) =>
+                 \A e \in Held(st, c) : C02_Entity(st, g, c, e) /\ C02_Once(st, g, c, e)
 
 C02_MonoStep(st, st2) ==
     \A c \in Client : (Active(st, c) /\ Active(st2, c)) =>
